@@ -144,6 +144,36 @@ func (l c24Int) leadingZeroDec() bool {
 	return l.base == 10 && len(l.d.chars) > 1 && l.d.chars[0] == '0'
 }
 
+// maxUsAfterLeadingZeros: the longest separator run that is left once the leading zeros of
+// a decimal spelling are dropped together with the separators behind them (what
+// stripDecimalLeadingZeros does to an element text before strconv sees it).
+func (l c24Int) maxUsAfterLeadingZeros() int {
+	i := 0
+	if l.base == 10 {
+		for i+1 < len(l.d.chars) && l.d.chars[i] == '0' {
+			i++
+		}
+	}
+	m := 0
+	for j := i + 1; j < len(l.d.us); j++ {
+		if l.d.us[j] > m {
+			m = l.d.us[j]
+		}
+	}
+	return m
+}
+
+// zeroBeforeSeparator: once the leading zeros that are directly followed by a digit are
+// dropped (what stripDecimalLeadingZeros does to the element text), a zero followed by a
+// separator is still in front, as in 0_10 or 00_8.
+func (l c24Int) zeroBeforeSeparator() bool {
+	i := 0
+	for i+1 < len(l.d.chars) && l.d.chars[i] == '0' && l.d.us[i+1] == 0 {
+		i++
+	}
+	return i+1 < len(l.d.chars) && l.d.chars[i] == '0'
+}
+
 type c24Exp struct {
 	upper bool
 	sign  int // 0 none, 1 '+', 2 '-'
@@ -917,12 +947,16 @@ func c24RefElem(a c24ArrType, text string) (data []byte, reject bool, cls string
 		}
 		cls = "other"
 		switch {
-		case a.mode == 0 && l.leadingZeroDec():
-			cls = "decimal-leading-zero"
 		case a.mode != 0 && l.d.maxUs() > 0:
 			cls = "separator-explicit-base"
-		case a.mode == 0 && l.d.maxUs() > 1:
+		case a.mode == 0 && l.maxUsAfterLeadingZeros() > 1:
 			cls = "repeated-separator"
+		case a.mode == 0 && l.leadingZeroDec() && l.zeroBeforeSeparator():
+			// repaired by 6b24587; kept so that a regression is reported under the old key
+			cls = "leading-zero-separator"
+		case a.mode == 0 && l.leadingZeroDec():
+			// repaired by 601f9e0; kept so that a regression is reported under the old key
+			cls = "decimal-leading-zero"
 		}
 		v := l.value()
 		lo, hi := new(big.Int), new(big.Int)
@@ -1643,7 +1677,7 @@ func runC24(c *Ctx) {
 	// ---- integer arrays
 	for _, fx := range [][2]string{{"i8", "010"}, {"i8", "08"}, {"i8", "1_0"}, {"i8", "1__0"}, {"i8", "-128 127"}, {"i8", "128"}, {"i8", "-129"}, {"i8", "0x7f -0x80 0b101 0o17"},
 		{"i8x", "7f -80"}, {"i8x", "f_f"}, {"u8x", "f_f"}, {"u8", "0_1"}, {"u8", "256"}, {"u8", "255 0xff"}, {"u8b", "1111_1111"}, {"u8b", "11111111"}, {"u8o", "377"}, {"u16", "65535"}, {"u16", "65536"},
-		{"u64", "18446744073709551615"}, {"u64", "18446744073709551616"}, {"i64", "-9223372036854775808"}, {"i16x", "-8000 7fff"}, {"i16x", "8000"}, {"I32O", "17777777777 -20000000000"}, {"u32b", "0 1 10"}, {"i8", "0200"}, {"u8", "0400"}} {
+		{"u64", "18446744073709551615"}, {"u64", "18446744073709551616"}, {"i64", "-9223372036854775808"}, {"i16x", "-8000 7fff"}, {"i16x", "8000"}, {"I32O", "17777777777 -20000000000"}, {"u32b", "0 1 10"}, {"i8", "0200"}, {"u8", "0400"}, {"u32", "0008"}, {"i8", "-010"}, {"i8", "0_10"}, {"i8", "00_8"}, {"u8", "0_8"}, {"u8", "00 0_0"}, {"i8", "0__1"}, {"i16", "0___0_12"}, {"i8", "0_1__2"}, {"i8", "-0_0"}, {"i8", "0x0__1"}} {
 		x.oneArray(fx[0], strings.Split(fx[1], " "))
 	}
 	for i := 0; i < c.Pick(240, 6000); i++ {
